@@ -194,6 +194,13 @@ pub trait QueueLike: Sized + Clone + std::fmt::Debug + 'static {
     fn q_into_iter(self) -> Box<dyn DynIter<OwnPair>>;
     fn q_into_sorted_iter(self) -> Box<dyn DynIter<OwnPair>>;
 
+    fn q_debug(&self) -> String;
+    fn q_to_json(&self) -> Result<String, String>;
+    fn q_to_value(&self) -> Result<serde_json::Value, String>;
+    fn q_from_json(s: &str) -> Result<Self, String>;
+    /// through serde's non-self-describing SeqDeserializer, with or without a length hint
+    fn q_from_values(v: Vec<serde_json::Value>, with_hint: bool) -> Result<Self, String>;
+
     /// std adaptor matrix over the non-mutable iterators: returns (label, Result<len, panic msg>)
     fn q_adaptor_lens(&self, j: usize, out: &mut AdOut);
     /// same for the mutable iterator (C09)
@@ -250,6 +257,21 @@ macro_rules! common_impl {
         fn q_iter_ref<'a>(&'a self) -> Box<dyn DynIter<RefPair<'a>> + 'a> { Box::new(DIter(Caps(<&'a $ty<H> as IntoIterator>::into_iter(self)))) }
         fn q_drain<'a>(&'a mut self) -> Box<dyn DynIter<OwnPair> + 'a> { Box::new(DDrain(Caps(<$ty<H>>::drain(self)))) }
         fn q_into_iter(self) -> Box<dyn DynIter<OwnPair>> { Box::new(DIntoIter(Caps(<$ty<H> as IntoIterator>::into_iter(self)))) }
+        fn q_debug(&self) -> String { format!("{:?}", self) }
+        fn q_to_json(&self) -> Result<String, String> { serde_json::to_string(self).map_err(|e| e.to_string()) }
+        fn q_to_value(&self) -> Result<serde_json::Value, String> { serde_json::to_value(self).map_err(|e| e.to_string()) }
+        fn q_from_json(s: &str) -> Result<Self, String> { serde_json::from_str::<$ty<H>>(s).map_err(|e| e.to_string()) }
+        fn q_from_values(v: Vec<serde_json::Value>, with_hint: bool) -> Result<Self, String> {
+            use serde::de::value::SeqDeserializer;
+            use serde::Deserialize;
+            if with_hint {
+                let d: SeqDeserializer<_, serde_json::Error> = SeqDeserializer::new(v.into_iter());
+                <$ty<H>>::deserialize(d).map_err(|e| e.to_string())
+            } else {
+                let d: SeqDeserializer<_, serde_json::Error> = SeqDeserializer::new(NoHint(v.into_iter()));
+                <$ty<H>>::deserialize(d).map_err(|e| e.to_string())
+            }
+        }
         fn q_adaptor_lens(&self, j: usize, out: &mut AdOut) {
             // every entry: (label, reported len(), number of elements really yielded)
             macro_rules! ad {
